@@ -44,6 +44,7 @@ var vpHArgNames = [8]string{"h0", "h1", "h2", "h3", "h4", "h5", "h6", "h7"}
 func VerifC16_Handlers() {
 	maxArgs := vpBound("maxargs")
 	maxLen := vpBound("maxlen")
+	vpNoTimers() // a Lock with a positive deadline waits on its timer: that path ends as "waiting", it is not a wedge
 	cl := vpNewCluster(vpClusterConfig{members: 1, replicaCount: 1, writeQuorum: 1, readQuorum: 1, partitions: 1})
 	cl.vpSetOwners(0, []int{0}, nil)
 	s := cl.members[0].svc
